@@ -156,6 +156,8 @@ def bufs_monitor(case, line):
     buffer list arrive in order at consecutive positions, the result is their number,
     nothing is dropped unless the OS reported an error; reads fill the buffers in order
     with the file's bytes and report the count."""
+    if line.startswith("crash"):
+        return "the library crashed or hung on this input (%s)" % line[:80]
     p = parse_bufs_line(line)
     if p is None:
         return "unparsable harness line: %s" % line[:120]
@@ -414,6 +416,8 @@ def routes_model_input(case, p, kv, ring):
 
 
 def routes_monitor_parsed(case, p):
+    if isinstance(p, str):
+        return "the library crashed or hung on this sequence (%s)" % p[:80]
     if p is None:
         return "unparsable harness line"
     ops = case.split(" | ")
@@ -479,6 +483,33 @@ def routes_monitor_parsed(case, p):
 
 
 # ----------------------------------------------------------------------------
+def run_robust(cmd, cases, shards=8, env=None, keep=lambda l: True):
+    """run_lines; when a process died (fewer lines than cases) every case is run in a
+    process of its own so that the crashing inputs are known: their line is 'crash <rc>'."""
+    import concurrent.futures
+    o, rc, err = vf.run_lines(cmd, cases, shards=shards, env=env)
+    extra = [l for l in o if not keep(l)]
+    o = [l for l in o if keep(l)]
+    if len(o) == len(cases):
+        return o, extra, err or ""
+
+    def one(c):
+        try:
+            oo, r, e = vf.run_lines(cmd, [c], timeout=120, env=env)
+        except Exception as ex:       # timeout
+            return "crash timeout", ""
+        oo2 = [l for l in oo if keep(l)]
+        ex = [l for l in oo if not keep(l)]
+        if r != 0 or len(oo2) != 1:
+            return "crash %s %s" % (r, (e or "")[-200:].replace("\n", " ")), ex
+        return oo2[0], ex
+    with concurrent.futures.ThreadPoolExecutor(12) as ex:
+        res = list(ex.map(one, cases))
+    for _, e in res:
+        extra += e
+    return [r for r, _ in res], extra, err or ""
+
+
 def read_corpus(name):
     p = os.path.join(vf.VERIF, "corpus", "C11", name)
     if not os.path.exists(p):
@@ -520,7 +551,7 @@ def main():
     if replay_case:
         bc = [replay_case[1]] if replay_case[0].startswith("fs.c buffer") and replay_case[1] else []
     if bc:
-        a, rc, err = vf.run_lines([hbufs, scratch_file], bc, shards=8)
+        a, _, err = run_robust([hbufs, scratch_file], bc)
         if len(a) != len(bc):
             chk.violation("c11_bufs produced %d lines for %d cases: %s" % (len(a), len(bc), (err or "")[-300:]),
                           {"kind": "harness"}, found_input=False)
@@ -559,11 +590,10 @@ def main():
             if not part:
                 continue
             env = dict(os.environ, UV_THREADPOOL_SIZE=tp)
-            o, rc, err = vf.run_lines([hroutes, trees], part, shards=8, env=env)
-            rcode = rcode or rc
-            errs += err or ""
-            envs += [l for l in o if l.startswith("env ")]
-            outs += [l for l in o if not l.startswith("env ")]
+            o, ex, err = run_robust([hroutes, trees], part, env=env, keep=lambda l: not l.startswith("env "))
+            errs += err
+            envs += ex
+            outs += o
         m = re.match(r"env kv=(\d+) ring=(\d)", envs[0]) if envs else None
         if len(outs) != len(rcs) or not m:
             chk.violation("c11_routes produced %d lines for %d cases (rc %d): %s" % (len(outs), len(rcs), rcode, errs[-300:]),
@@ -572,12 +602,12 @@ def main():
             kv, ring = m.group(1), int(m.group(2))
             chk.cov["kernel_version_hex"] = hex(int(kv))
             chk.cov["sqpoll_ring_available"] = bool(ring)
-            parsed = [parse_routes_line(l) for l in outs]
+            parsed = [l if l.startswith("crash") else parse_routes_line(l) for l in outs]
             full = {}
             proj, minput = [], []
             for c, l, p in zip(rcs, outs, parsed):
                 full[c] = p
-                if p is None or len(p["ops"]) != len(c.split(" | ")):
+                if p is None or isinstance(p, str) or len(p["ops"]) != len(c.split(" | ")):
                     proj.append("unparsable: " + l[:200])
                     minput.append("%s %d ; " % (kv, ring))
                 else:
@@ -586,8 +616,9 @@ def main():
             b, rc2, err2 = vf.run_lines([model, "routes"], minput, shards=8)
             vf.diff_cases(chk, "routes: uv__iou_fs_* / route taken / ownership = Model/Fs.v parts A, C", rcs, proj, b,
                           lambda c, a: routes_monitor_parsed(c, full.get(c)))
-            nring = sum(1 for p in parsed if p for o in p["ops"] if o["R"][0].get("via") == "r")
-            nops = sum(len(p["ops"]) for p in parsed if p)
+            okp = [p for p in parsed if isinstance(p, dict)]
+            nring = sum(1 for p in okp for o in p["ops"] if o["R"][0].get("via") == "r")
+            nops = sum(len(p["ops"]) for p in okp)
             chk.cov["routes_sequences"] = len(rcs)
             chk.cov["routes_operations"] = nops
             chk.cov["routes_operations_completed_by_the_ring"] = nring
